@@ -625,6 +625,16 @@ def to_rf(ctx, n, _trig_pending=None):
 
 def _call_rf(ctx, x, memo, pending):
     fn = x.args[0]
+    if fn.startswith("uf:"):
+        # uninterpreted function: one atom per (function, canonical argument tuple)
+        def rfkey_(r):
+            return ("p", _poly_key(r.n)) if r.d is None else ("q", _poly_key(r.n), _poly_key(r.d))
+        try:
+            key = ("uf", fn) + tuple(rfkey_(memo[a_.id]) for a_ in x.args[1:])
+        except Exception:
+            key = ("node", x.id)
+        i = ctx.atom(key, "%s@%d" % (fn, x.id))
+        return RF(ctx.var_lp(i))
     a = memo[x.args[1].id]
     if fn == "sqrt":
         return sqrt_rf(ctx, a, x)
